@@ -300,6 +300,8 @@ def crash_key(pid, output):
     m = re.search(r'SUMMARY: (\w+Sanitizer): ([\w-]+)(?: [^\n]*? in (\w+))?', output)
     kind = 'crash'
     fn = ''
+    if 'harness budget: more than' in output:
+        return '%s:crash:client-spins-or-blocks' % pid
     if m:
         kind = m.group(2)
         fn = m.group(3) or ''
